@@ -65,8 +65,11 @@ type c13Net struct {
 	rpc        *rpcsrv.Server
 	mu         sync.Mutex
 	nns        util.Uint160
-	sent       []c13Sent // every transaction a member handed to SendRawTransaction
-	notaryReqs int       // notary requests members submitted
+	sent       []c13Sent     // every transaction a member handed to SendRawTransaction
+	minDeposit map[int]int64 // per member: lowest Notary deposit seen while its Deploy ran (after its first deposit)
+	lowStreak  map[int]int   // per member: longest run of blocks with the deposit below the cost of a request
+	blockMs    int           // block interval of this chain (config and harness' block producer)
+	notaryReqs int           // notary requests members submitted
 	clients    []*rpcclient.Internal
 }
 
@@ -88,8 +91,11 @@ func c13Key(salt int64, i int) *keys.PrivateKey {
 	}
 }
 
-func newC13Net(t testing.TB, n int, salt int64) *c13Net {
-	x := &c13Net{t: t, n: n}
+func newC13Net(t testing.TB, n int, salt int64) *c13Net { return newC13NetMs(t, n, salt, c13BlockMs) }
+
+// newC13NetMs: the same chain with another block interval.
+func newC13NetMs(t testing.TB, n int, salt int64, blockMs int) *c13Net {
+	x := &c13Net{t: t, n: n, blockMs: blockMs}
 	for i := 0; i < n; i++ {
 		x.accs = append(x.accs, wallet.NewAccountFromPrivateKey(c13Key(salt, i)))
 	}
@@ -105,7 +111,7 @@ func newC13Net(t testing.TB, n int, salt int64) *c13Net {
 	cfg := config.Blockchain{ProtocolConfiguration: config.ProtocolConfiguration{
 		Magic:              netmode.UnitTestNet,
 		MaxTraceableBlocks: 200000,
-		TimePerBlock:       c13BlockMs * time.Millisecond,
+		TimePerBlock:       time.Duration(blockMs) * time.Millisecond,
 		StandbyCommittee:   standby,
 		ValidatorsCount:    uint32(n),
 		VerifyTransactions: true,
@@ -258,7 +264,7 @@ func (x *c13Net) deployNNS() {
 		case err := <-done:
 			require.NoError(x.t, err)
 			return
-		case <-time.After(c13BlockMs * time.Millisecond):
+		case <-time.After(time.Duration(x.blockMs) * time.Millisecond):
 			x.addBlock()
 		}
 	}
@@ -423,7 +429,7 @@ loop:
 		select {
 		case <-allBack:
 			break loop
-		case <-time.After(c13BlockMs * time.Millisecond):
+		case <-time.After(time.Duration(x.blockMs) * time.Millisecond):
 			x.addBlock()
 		}
 	}
